@@ -78,3 +78,64 @@ pub fn cases(args: &[String]) {
         }
     }
 }
+
+/// C18: N threads released by a barrier make the FIRST use (in this fresh process) of the same
+/// derived types, each running all jobs of the file in its own shuffled order. One output line per
+/// job: the result if all threads agree, `DIVERGE ...` otherwise.
+pub fn contend(args: &[String]) {
+    quiet_panics();
+    let text = std::fs::read_to_string(&args[0]).expect("case file");
+    let threads: usize = args.get(1).map(|s| s.parse().unwrap()).unwrap_or(16);
+    let seed: u64 = args.get(2).map(|s| s.parse().unwrap()).unwrap_or(1);
+    let jobs: std::sync::Arc<Vec<String>> =
+        std::sync::Arc::new(text.lines().map(|l| l.trim().to_string()).filter(|l| !l.is_empty()).collect());
+    let barrier = std::sync::Arc::new(std::sync::Barrier::new(threads));
+    let mut handles = Vec::new();
+    for t in 0..threads {
+        let jobs = jobs.clone();
+        let barrier = barrier.clone();
+        handles.push(std::thread::spawn(move || {
+            // a per-thread permutation (xorshift)
+            let mut order: Vec<usize> = (0..jobs.len()).collect();
+            let mut x = seed.wrapping_mul(0x9E3779B97F4A7C15) ^ ((t as u64 + 1) << 32) | 1;
+            for i in (1..order.len()).rev() {
+                x ^= x << 13;
+                x ^= x >> 7;
+                x ^= x << 17;
+                order.swap(i, (x % (i as u64 + 1)) as usize);
+            }
+            let mut out = vec![String::new(); jobs.len()];
+            barrier.wait();
+            for j in order {
+                let line = &jobs[j];
+                let (cmd, rest) = line.split_once(' ').unwrap();
+                let sx = parse_all(rest);
+                assert_eq!(cmd, "srt");
+                let n = sx[0].atom().to_string();
+                let v = sx[1].clone();
+                let sfx = unhex(sx[2].atom());
+                let r = guarded(std::panic::AssertUnwindSafe(|| match enc(&n, &v) {
+                    (l, None) => format!("{l} ; -"),
+                    (l, Some(mut b)) => {
+                        b.extend_from_slice(&sfx);
+                        format!("{l} ; {}", dec(&n, &b))
+                    }
+                }));
+                out[j] = r.unwrap_or_else(|p| format!("panic {p}"));
+            }
+            out
+        }));
+    }
+    let results: Vec<Vec<String>> = handles.into_iter().map(|h| h.join().expect("thread")).collect();
+    let stdout = std::io::stdout();
+    let mut w = std::io::BufWriter::new(stdout.lock());
+    for j in 0..jobs.len() {
+        let first = &results[0][j];
+        if results.iter().all(|r| &r[j] == first) {
+            writeln!(w, "{first}").unwrap();
+        } else {
+            let all: Vec<&str> = results.iter().map(|r| r[j].as_str()).collect();
+            writeln!(w, "DIVERGE {}", all.join(" || ")).unwrap();
+        }
+    }
+}
